@@ -782,7 +782,7 @@ def declare(spec):
         props=["C02", "C07", "C12", "C13", "C14"])
 
     # ---- placeholders (ASSUMED, not verified yet): the three remaining event handlers ------------------------------
-    for h in ["change_shift", "slotted_service", "change_customer_class_while_waiting"]:
+    for h in ["change_shift", "slotted_service"]:
         add(spec, "Node." + h, modifies=["*"], allocates="any", assumed=True, raises=[("ValueError", "True")],
             note="event handler not under contract yet: may change anything its call graph can write")
 
